@@ -21,6 +21,7 @@ COPIES = ["nexrad_decode::util::get_datetime", "nexrad_data::volume::util::get_d
 def run(chk, tier):
     prog, info = common.program("all")
     common.note_extraction(chk, info, prog)
+    common.vacuity(chk, ['R-PANIC', 'R-WIRE'])
     chk.explanation = ("Value numbering with five chrono axioms (A1 from_ymd_opt on a valid constant date = its day number, computed by the checker's own "
                        "proleptic-Gregorian routine; A2 date + days(k) = the date k days later; A3 midnight constant; A4 time + duration wraps mod 24 h and is "
                        "total; A5 from_naive_utc_and_offset(date,time,Utc) = date*86400 s + time) reduces every accessor to the canonical term "
